@@ -75,15 +75,18 @@ const string& GetTimeAsStringMS(string& result, const Tickval *tv, const unsigne
    oss << setfill('0') << setw(4) << (ptim->tm_year + 1900) << '-';
    oss << setw(2) << (ptim->tm_mon + 1)  << '-' << setw(2) << ptim->tm_mday << ' ' << setw(2) << ptim->tm_hour;
    oss << ':' << setw(2) << ptim->tm_min << ':';
+	oss << setw(2) << ptim->tm_sec;
 	if (dplaces)
 	{
-		const double secs((startTime->secs() % 60) + static_cast<double>(startTime->nsecs()) / Tickval::billion);
-		oss.setf(ios::showpoint);
-		oss.setf(ios::fixed);
-		oss << setw(3 + dplaces) << setfill('0') << setprecision(dplaces) << secs;
+		// truncate the fraction, never round: rounding e.g. 59.9996 to 3 places printed second "60.000"
+		const unsigned places(dplaces > 9 ? 9 : dplaces); // a Tickval resolves nanoseconds
+		unsigned frac(startTime->nsecs());
+		for (unsigned ii(places); ii < 9; ++ii)
+			frac /= 10;
+		oss << '.' << setw(places) << frac;
+		if (dplaces > 9)
+			oss << setw(dplaces - 9) << 0;
 	}
-	else
-		oss << setfill('0') << setw(2) << ptim->tm_sec;
    return result = oss.str();
 }
 
